@@ -148,7 +148,14 @@ def case_pattern(rng: Any, ctx: Ctx, index: int) -> None:
     x = gen.rand_input(rng, e.in_structure())
     y = e.mv(x)                                            # monitored
     r = e.reduce()
-    yr = r.mv(x)                                           # monitored: the reduced operator on the same input
+    try:
+        yr = r.mv(x)                                       # monitored: the reduced operator on the same input
+    except Exception as exc:  # noqa: BLE001 - the unreduced expression accepts this input, the reduced one does not
+        LOG.evaluated('C05.variant')
+        LOG.violation('C05', 'C05.variant', f'{tag.split("/")[0]}.reduce/result-rejects-the-input',
+                      f'the reduced operator cannot be applied to an input of the declared structure: {type(exc).__name__}: {str(exc)[:100]}',
+                      expr=dense.describe(e), result=dense.describe(r))
+        return
     guarded('C05.declared', lambda: check_declared(r))
     LOG.evaluated('C05.variant')
     if not (dense.struct_eq_loose(r.in_structure(), e.in_structure()) and dense.struct_eq_loose(r.out_structure(), e.out_structure())
